@@ -83,6 +83,19 @@ def bind_param(eng, st, f, p):
         st.vars[name] = Obj(name, 'std::string')
         eng.string_len(st, name)
         return True
+    if t.replace('const ', '').strip() == 'char *' and name == 'str':
+        # ( const char* str, ..., size_t count): the documented contract is 'count characters of str' - the
+        # caller's array holds at least count characters and (as a C string) its terminator
+        names = [q['name'] for q in f.params]
+        cn = 'count2' if 'count2' in names else 'count' if 'count' in names else None
+        if cn is None:
+            return False
+        eng.bind_cstring(st, name)
+        cnt = eng.named(cn, st, 'unsigned long')
+        ext = eng.named('extent(%s)' % name, st, 'unsigned long')
+        st.assume(ge(ext, cnt), ge(ext, st.fields[(name, 'strlen')] + 1))
+        st.regions[name] = ext
+        return True
     if t.replace('const ', '').strip() == 'char *' and f.short == 'copy' and name == 'dest':
         # documented extent of the caller's buffer: count characters
         cnt = st.vars.get('count')
@@ -170,6 +183,8 @@ def members_to_analyse(prog, L):
             continue          # iterator-taking overloads: validity of foreign iterators is outside the claim
         if f.short in SKIP:
             continue
+        if f.d.get('defaulted'):
+            continue          # member-wise copy of a well-formed object is well-formed
         if f.d.get('access', 0) != 0:
             continue          # private helpers are analysed inlined into their public callers
         res.append(f)
@@ -198,7 +213,12 @@ def run(chk):
         'known NUL at mString[ mLength] is assumed at entry and proved at every exit.' % grid)
     chk.assumptions = ['const char* arguments are NUL-terminated strings; copy( dest, count) may write count bytes',
                        'iterator-taking overloads are not analysed (validity of caller iterators is outside the claim)',
-                       'vsnprintf writes at most the given size incl. the terminator']
+                       'vsnprintf writes at most the given size incl. the terminator',
+                       'operator[]( idx) is documented as unchecked (undefined behaviour for an invalid index, like '
+                       'std::string): decided under its documented precondition idx <= length(); at() is decided '
+                       'for every idx',
+                       '( const char* str, ..., count) overloads: the caller array holds at least count characters '
+                       'and a terminator']
     chk.trusted_base = ['clang 14 front end', '/verif/tools/celma-facts.cc', '/verif/cv/bounds.py + lin.py']
     chk.rule('O1', 'every access stays inside the buffers involved', 80)
     chk.rule('O2', 'length <= capacity and NUL at the length at every exit', 100)
@@ -223,6 +243,13 @@ def run(chk):
                     for s in finals:
                         if s.status in ('normal', 'return'):
                             eng.check_invariants(s, f, None, 'at exit')
+                elif f.short == 'operator[]':
+                    # documented as unchecked ('if the given index is invalid ... the behaviour is undefined',
+                    # like std::string): analysed under its documented precondition idx <= length()
+                    def pre(e, st, func, L=L):
+                        ln, _ = fs_fields(e, st, 'this', L)
+                        st.assume(le(st.vars['idx'], ln))
+                    eng.analyse(f, pre)
                 else:
                     eng.analyse(f)
             except RecursionError:
@@ -232,6 +259,18 @@ def run(chk):
             for o in eng.obligations[before:]:
                 rule = 'O3' if o.kind == 'wrap' else ('O2' if o.kind in ('invariant', 'nul') else 'O1')
                 chk.check(o.held, rule, f.name, '%s [%s]' % (o.what, tag), o.where, o.detail)
+    # free comparison operators (instantiated by the driver for equal, smaller and larger right capacities)
+    free = [f for f in prog.functions if f.cls is None and f.name in ('celma::common::operator==',
+                                                                      'celma::common::operator!=')
+            and all('FixedString<' in p['t'] for p in f.params)]
+    chk.require(len(free) >= 6, 'only %d free comparison operators instantiated' % len(free))
+    for f in sorted(free, key=lambda x: (x.line, x.key)):
+        before = len(eng.obligations)
+        eng.analyse(f)
+        total += 1
+        tag = sig(f)
+        for o in eng.obligations[before:]:
+            chk.check(o.held, 'O1', f.name, '%s [%s]' % (o.what, tag), o.where, o.detail)
     chk.samples.append({'members_analysed': total, 'capacities': grid})
     if eng.unsupported:
         chk.notes.append('constructs evaluated as opaque: %s' % sorted(set(eng.unsupported))[:12])
